@@ -59,6 +59,37 @@ def make_inputs(d, rng_seed, nsamp=3, chroms=("1", "2"), dup_info=False):
             f.write(f"rs{j}\t{0.1 * (j + 1):.1f}\n")
 
 
+# simphenotype configurations every seeded run is repeated under: quantitative and case/control traits, with and without noise
+# (no noise + few causal variables = tied liabilities at the case threshold), given environment, raw dosages
+PHENO_CONFIGS = [
+    dict(heritability=0.5),
+    dict(heritability=1.0, prevalence=0.3, haplotype_ids=("rs1",)),
+    dict(prevalence=0.4),
+    dict(environment=0.0, prevalence=0.25, haplotype_ids=("rs2", "rs4")),
+    dict(heritability=0.8, normalize=False),
+    dict(environment=2.0),
+]
+
+
+def pheno_kwargs(cfg):
+    k = dict(cfg)
+    if "haplotype_ids" in k:
+        k["haplotype_ids"] = set(k["haplotype_ids"])
+    return k
+
+
+def pheno_flags(cfg):
+    a = []
+    for key, flag in (("heritability", "--heritability"), ("prevalence", "--prevalence"), ("environment", "--environment")):
+        if key in cfg:
+            a += [flag, str(cfg[key])]
+    if cfg.get("normalize") is False:
+        a += ["--no-normalize"]
+    for i in cfg.get("haplotype_ids", ()):
+        a += ["--id", i]
+    return a
+
+
 def digest_vcf(path):
     import pysam
 
@@ -143,21 +174,29 @@ def impl_inproc(case):
     # simphenotype, twice, through the Python entry point; replications must differ from each other
     from haptools.sim_phenotype import simulate_pt
 
-    ph = []
     saved = np.get_printoptions()
+    differs = []
+    ph0 = None
     try:
-        for k in (0, 1):
-            np.random.random(case["burn"][k])
-            if k == 1 and case.get("printopts"):
-                # whatever ran earlier may have changed numpy's process-wide print settings (a common notebook habit)
-                np.set_printoptions(suppress=True, precision=3, sign=" ", floatmode="fixed", linewidth=40, threshold=5)
-            o = d / f"ph{k}.pheno"
-            simulate_pt(d / "gts.vcf", d / "eff.snplist", num_replications=case["R"], heritability=0.5, seed=case["seed"], output=o, log=SD.silent_log())
-            ph.append(open(o, "rb").read())
+        for ci, cfg in enumerate(PHENO_CONFIGS):
+            ph = []
+            for k in (0, 1):
+                np.random.random(case["burn"][k])
+                if k == 1 and case.get("printopts"):
+                    # whatever ran earlier may have changed numpy's process-wide print settings (a common notebook habit)
+                    np.set_printoptions(suppress=True, precision=3, sign=" ", floatmode="fixed", linewidth=40, threshold=5)
+                o = d / f"ph{k}.pheno"
+                simulate_pt(d / "gts.vcf", d / "eff.snplist", num_replications=case["R"], seed=case["seed"], output=o, log=SD.silent_log(), **pheno_kwargs(cfg))
+                ph.append(open(o, "rb").read())
+                np.set_printoptions(**saved)
+            if ph[0] != ph[1]:
+                differs.append(ci)
+            if ci == 0:
+                ph0 = ph[0]
     finally:
         np.set_printoptions(**saved)
-    cols = list(zip(*[l.split("\t")[1:] for l in ph[0].decode().splitlines()[1:]]))
-    return {"runs": outs, "pheno_identical": ph[0] == ph[1], "replication_columns_distinct": len(set(cols)) == len(cols)}
+    cols = list(zip(*[l.split("\t")[1:] for l in ph0.decode().splitlines()[1:]]))
+    return {"runs": outs, "pheno_identical": not differs, "pheno_differs_under": [PHENO_CONFIGS[i] for i in differs], "replication_columns_distinct": len(set(cols)) == len(cols)}
 
 
 def oracle_inproc(case, obs):
@@ -169,7 +208,7 @@ def oracle_inproc(case, obs):
     if a["vcf"] != b["vcf"]:
         return f"two simgenotype runs with seed {case['seed']} in one process (no_replacement={case['no_repl']}, via {case['via']}) produced different genotype content"
     if not obs["pheno_identical"]:
-        return f"two simphenotype runs with seed {case['seed']} wrote different phenotype files"
+        return f"two simphenotype runs with seed {case['seed']} wrote different phenotype files (options {obs.get('pheno_differs_under')})"
     if not obs["replication_columns_distinct"]:
         return "replications inside one simphenotype run are copies of each other"
     return None
@@ -188,6 +227,8 @@ tag = {tag!r}
 r = CliRunner().invoke(main, ["simgenotype", "--model", d + "/model.dat", "--mapdir", d + "/maps", "--chroms", "1,2", "--seed", "{seed}", "--ref_vcf", d + "/ref.vcf.gz", "--sample_info", d + "/info.tab", "--out", d + "/fp" + tag + ".vcf", "--pop_field"], catch_exceptions=False)
 assert r.exit_code == 0, r.output
 r = CliRunner().invoke(main, ["simphenotype", "--seed", "{seed}", "-r", "2", "--id", "rs4", "--id", "rs1", "--id", "rs5", "--id", "rs2", "-o", d + "/fp" + tag + ".pheno", d + "/gts.vcf", d + "/eff.snplist"], catch_exceptions=False)
+assert r.exit_code == 0, r.output
+r = CliRunner().invoke(main, ["simphenotype", "--seed", "{seed}", "-r", "2", "--heritability", "1", "--prevalence", "0.3", "--id", "rs1", "-o", d + "/fp" + tag + ".cc.pheno", d + "/gts.vcf", d + "/eff.snplist"], catch_exceptions=False)
 assert r.exit_code == 0, r.output
 """
 
@@ -209,7 +250,7 @@ def impl_fresh(case):
         r = subprocess.run([sys.executable, "-c", code], env=env, capture_output=True, text=True, timeout=300)
         if r.returncode != 0:
             return {"error": "subprocess", "msg": r.stderr[-300:]}
-        res.append({"bp": hashlib.sha256(open(d / f"fp{k}.bp", "rb").read()).hexdigest(), "vcf": digest_vcf(d / f"fp{k}.vcf"), "pheno": hashlib.sha256(open(d / f"fp{k}.pheno", "rb").read()).hexdigest(), "pheno_header": open(d / f"fp{k}.pheno").readline().strip()})
+        res.append({"bp": hashlib.sha256(open(d / f"fp{k}.bp", "rb").read()).hexdigest(), "vcf": digest_vcf(d / f"fp{k}.vcf"), "pheno": hashlib.sha256(open(d / f"fp{k}.pheno", "rb").read()).hexdigest(), "case_control_pheno": hashlib.sha256(open(d / f"fp{k}.cc.pheno", "rb").read()).hexdigest(), "pheno_header": open(d / f"fp{k}.pheno").readline().strip()})
     return {"runs": res}
 
 
@@ -218,7 +259,7 @@ def oracle_fresh(case, obs):
         return f"seeded command failed in a fresh process: {obs}"
     r0 = obs["runs"][0]
     for k, r in enumerate(obs["runs"][1:], 1):
-        for what in ("bp", "vcf", "pheno"):
+        for what in ("bp", "vcf", "pheno", "case_control_pheno"):
             if r[what] != r0[what]:
                 return f"seed {case['seed']}: {what} output differs between fresh processes (PYTHONHASHSEED {case['hashseeds'][0]} vs {case['hashseeds'][k]}; headers {r0['pheno_header']!r} vs {r['pheno_header']!r})"
     return None
@@ -272,12 +313,13 @@ def impl_requests(case):
     # simphenotype
     g_before = _state_digest()
     with SD.record_random() as rp2:
-        if case["via"] == "cli":
-            r = CliRunner().invoke(main, ["simphenotype", "--seed", str(case["seed"]), "-r", "2", "-o", str(d / "q.pheno"), str(d / "gts.vcf"), str(d / "eff.snplist")], catch_exceptions=True)
-            if r.exit_code != 0:
-                return {"error": "cli_exit", "msg": (str(r.exception) or r.output)[-200:]}
-        else:
-            sp.simulate_pt(d / "gts.vcf", d / "eff.snplist", num_replications=2, heritability=0.5, seed=case["seed"], output=d / "q.pheno", log=SD.silent_log())
+        for cfg in PHENO_CONFIGS:
+            if case["via"] == "cli":
+                r = CliRunner().invoke(main, ["simphenotype", "--seed", str(case["seed"]), "-r", "2", "-o", str(d / "q.pheno")] + pheno_flags(cfg) + [str(d / "gts.vcf"), str(d / "eff.snplist")], catch_exceptions=True)
+                if r.exit_code != 0:
+                    return {"error": "cli_exit", "msg": (str(r.exception) or r.output)[-200:]}
+            else:
+                sp.simulate_pt(d / "gts.vcf", d / "eff.snplist", num_replications=2, seed=case["seed"], output=d / "q.pheno", log=SD.silent_log(), **pheno_kwargs(cfg))
     obs["simphenotype_global_requests"] = sum(1 for e in rp2.log if e[0] != "default_rng")
     obs["simphenotype_private_seeds"] = [repr(e[1]) for e in rp2.log if e[0] == "default_rng"]
     obs["global_state_unchanged_by_simphenotype"] = _state_digest() == g_before
